@@ -334,3 +334,18 @@ var ErrorType = types.Universe.Lookup("error").Type()
 
 // IsErrorType reports whether t is the error interface.
 func IsErrorType(t types.Type) bool { return types.Identical(t, ErrorType) }
+
+// SameFunc compares two functions modulo generic instantiation.
+func SameFunc(a, b *ssa.Function) bool {
+	if a == nil || b == nil {
+		return false
+	}
+	oa, ob := a, b
+	if o := a.Origin(); o != nil {
+		oa = o
+	}
+	if o := b.Origin(); o != nil {
+		ob = o
+	}
+	return oa == ob
+}
